@@ -57,9 +57,23 @@ def shapes():
 
 
 def near_misses(d):
+    import stix2
     paths = [p for p, _ in selectors_of(d)]
     yield 'nonexistent'
     yield 'labels.[99]'
+    # properties the type declares but this object does not carry: they address nothing
+    try:
+        o = stix2.parse(copy.deepcopy(d))
+        for name in type(o)._properties:
+            if name not in d and name not in o and name != 'granular_markings': yield name        # (defaulted properties are carried by the object)
+    except Exception: pass
+    # wrong nesting, one step too deep: an index step on a scalar or a dictionary, a key step on a scalar or a list
+    for p, v in selectors_of(d):
+        if isinstance(v, str) or not isinstance(v, (list, dict)):
+            yield p + '.[0]'; yield p + '.key'
+            if isinstance(v, str) and len(v) > 1: yield p + f'.[{len(v) - 1}]'
+        elif isinstance(v, dict): yield p + '.[0]'
+        elif isinstance(v, list): yield p + '.length'; yield p + '.0'
     for p in paths:
         if p.endswith(']'): yield p[:p.rindex('[')] + f'[{int(p[p.rindex("[") + 1:-1]) + 50}]'
         yield p + '.absent_key'
@@ -77,8 +91,8 @@ def run(chk):
                        'whatever value is stored there (loop with early return, prefix invariant); _validate_selector truthy <=> a match; validate raises iff the list is '
                        'empty or some selector addresses nothing; every override of _check_object_constraints calls the base implementation unconditionally (so validation '
                        'runs on every construction).  B: iterpath against an independent path enumerator on a shape family (every JSON kind at leaves incl. false / 0 / 0.0 / "", '
-                       'repeated list elements, nested dictionaries, embedded objects, extensions): every path accepted, every near miss (absent key, index past the end, wrong '
-                       'nesting, name extending or truncating an existing one) rejected -- at construction, at parse time, by add/get/is_marked/remove/clear/set_markings, '
+                       'repeated list elements, nested dictionaries, embedded objects, extensions): every path accepted, every near miss (absent key, declared but absent property, index past the end, wrong '
+                       'nesting incl. an index step on a string / number / dictionary and a key step on a scalar / list, name extending or truncating an existing one) rejected -- at construction, at parse time, by add/get/is_marked/remove/clear/set_markings, '
                        'also on objects without any granular marking.')
     lexical_part(chk, 'C08')
     for c in (K.evaluate_expression_contract(), K.validate_selector_contract(), K.validate_contract()):
